@@ -310,6 +310,43 @@ fn check_decode(rec: &mut Rec, bytes: &[u8; 24]) {
       json!({"kind":"decode","bytes":hex(bytes)}),
     );
   }
+  // the same 24 bytes as the x and as a y coordinate of a share on the wire:
+  // the one place where users hand field-element encodings to the crate
+  {
+    use std::convert::TryFrom;
+    let mut one = [0u8; 24];
+    one[0] = 1;
+    for slot in 0..2 {
+      let mut enc = Vec::with_capacity(48);
+      if slot == 0 {
+        enc.extend_from_slice(bytes);
+        enc.extend_from_slice(&one);
+      } else {
+        enc.extend_from_slice(&one);
+        enc.extend_from_slice(bytes);
+      }
+      rec.ev("decode_via_share");
+      match star_sharks::Share::try_from(&enc[..]) {
+        Ok(s) => {
+          let back: Vec<u8> = Vec::from(&s);
+          if !canonical {
+            rec.violation(
+              "encoding:noncanonical-accepted-in-share",
+              format!("a share whose {} coordinate encodes {} >= p was accepted (decodes to {})", if slot == 0 { "x" } else { "y" }, v, hex(&back[24 * slot..24 * slot + 24])),
+              json!({"kind":"share-decode","bytes":hex(bytes),"slot":slot}),
+            );
+          } else if back != enc {
+            rec.violation("encoding:share-roundtrip", format!("share decode/encode changed the canonical element {}", hex(bytes)), json!({"bytes":hex(bytes),"slot":slot}));
+          }
+        }
+        Err(_) => {
+          if canonical {
+            rec.violation("encoding:canonical-rejected-in-share", format!("a share with the canonical element {} was rejected", hex(bytes)), json!({"bytes":hex(bytes),"slot":slot}));
+          }
+        }
+      }
+    }
+  }
   match (canonical, got) {
     (true, Some(f)) => {
       let back = f.to_repr();
@@ -368,9 +405,13 @@ fn check_constants(rec: &mut Rec) {
     bad(rec, "MODULUS", "2^128+12451 failed Miller-Rabin (monitor self-check)".into());
   }
   // -1 + 1 == 0 and char: p * x == 0 relation through repeated doubling
-  let m1 = to_fp(&(&p - &one)).expect("p-1 canonical");
-  if !bool::from((m1 + Fp::ONE).is_zero()) {
-    bad(rec, "MODULUS", "(p-1)+1 != 0 in Fp".into());
+  match to_fp(&(&p - &one)) {
+    Some(m1) => {
+      if !bool::from((m1 + Fp::ONE).is_zero()) {
+        bad(rec, "MODULUS", "(p-1)+1 != 0 in Fp".into());
+      }
+    }
+    None => bad(rec, "MODULUS", "the encoding of p-1 is rejected as non-canonical".into()),
   }
   if Fp::NUM_BITS != 129 {
     bad(rec, "NUM_BITS", format!("{} != 129", Fp::NUM_BITS));
@@ -571,7 +612,7 @@ pub fn run(ctx: &Ctx) -> Rec {
   });
   total.merge(r);
   // fixed extreme strings
-  for b in [[0u8; 24], [0xffu8; 24]] {
+  for b in [[0u8; 24], [0xffu8; 24], bf::to_le24(&bf::p()), bf::to_le24(&(bf::p() + BigUint::one())), bf::to_le24(&(bf::p() - BigUint::one())), bf::to_le24(&(bf::p() + bf::p()))] {
     check_decode(&mut total, &b);
   }
   // Fp::random stays in range and round-trips (sanity of the sampler the dealer uses)
